@@ -85,6 +85,8 @@ func main() {
 				ok = has0 && len(tab) > 1
 			case "single":
 				ok = len(tab) == 1
+			case "zerosmall": // contains 0 and few other values: 0 is drawn often
+				ok = has0 && len(tab) > 1 && len(tab) <= 6
 			case "zeroonly":
 				ok = has0 && len(tab) == 1
 			case "any":
